@@ -214,6 +214,10 @@ class C13(Property):
         '(operation histories): oracle only — the Lean model is a pure function, aliasing is not expressible in it',
         'Species.from_formula leaves the caller\'s phases object (tuple / list / dict / OrderedDict / generator) unchanged and gives the same index on repeated '
         'calls sharing that object (phases histories): oracle only — the model takes phases by value',
+        'printer dispatch for species that are not Substances (an object with its own `_html` method, `fallback_print_fn=None`): oracle only '
+        '(Printer._print lines reached by the printer_dispatch stream); the model covers Substances and plain keys',
+        '`_get_charge` called directly on ill-formed charge texts (magnitude before the sign, text on both sides, no sign): refusal compared with the model '
+        '(op charge) and judged by the oracle; no C13 theorem (C01 owns `getCharge_render` / `reject_contradictory_charge`)',
         'that the harness\'s Python inverse maps equal the Lean unLatex/unUnicode/unHtml: compared on real outputs only',
     )
     anchors = (('chempy/util/parsing.py', '_formula_to_format'), ('chempy/util/parsing.py', '_subs'),
